@@ -253,6 +253,11 @@ FN = "compute_affinity"
 ABOVE_ONE = {"fn": FN, "kind": "ratio_above_one"}
 
 
+def fa_le(a):
+    """1 < a <= 1 + 1e-9: the excess is of rounding size (class 'ratio_above_one'); beyond that it is 'far_above_one'."""
+    return F(a) <= 1 + TOL_SYM
+
+
 def run_case(case):
     out = Out(case)
     g, h = case["g"], case["h"]
@@ -301,7 +306,8 @@ def run_case(case):
             continue
         a = ra[1]
         if a > 1:
-            out.fail("range", a, "<= 1", dict(ABOVE_ONE), det)
+            # rounding-level excess (F4) is classified apart from a grossly wrong ratio
+            out.fail("range", a, "<= 1", dict(ABOVE_ONE) if fa_le(a) else dict(cell, fn=FN, kind="far_above_one"), det)
         elif a < 0:
             out.fail("range", a, ">= 0", dict(cell, fn=FN, kind="negative"), det)
         else:
@@ -323,7 +329,7 @@ def run_case(case):
         if same and pg[4] > 0:
             judged = True
             if a > 1:
-                out.fail("self_is_one", a, "1 - 1e-9 <= a(g,g) <= 1", dict(ABOVE_ONE), det)
+                out.fail("self_is_one", a, "1 - 1e-9 <= a(g,g) <= 1", dict(ABOVE_ONE) if fa_le(a) else dict(cell, fn=FN, kind="far_above_one"), det)
             else:
                 out.expect("self_is_one", fa >= 1 - TOL_SYM, a, "1 - 1e-9 <= a(g,g) <= 1", dict(cell, fn=FN, kind="self_below_one"), det)
         else:
